@@ -155,13 +155,13 @@ func c07Allowed(args [][]byte) ([][]byte, []byte) {
 	if err != nil {
 		return args, B("unknown-version")
 	}
-	ev, err := verImpl.NewEventFromTrustedJSON(args[2], false)
+	ev, err := c07ParseTrusted(verImpl, args[2])
 	if err != nil {
 		return args, B("unparsed")
 	}
 	auths := []gm.PDU{}
 	for _, a := range args[3:] {
-		ae, err := verImpl.NewEventFromTrustedJSON(a, false)
+		ae, err := c07ParseTrusted(verImpl, a)
 		if err != nil {
 			return args, B("unparsed")
 		}
@@ -199,13 +199,13 @@ func c07AllowedNilQ(args [][]byte) ([][]byte, []byte) {
 	if err != nil {
 		return args, B("unknown-version")
 	}
-	ev, err := verImpl.NewEventFromTrustedJSON(args[2], false)
+	ev, err := c07ParseTrusted(verImpl, args[2])
 	if err != nil {
 		return args, B("unparsed")
 	}
 	auths := []gm.PDU{}
 	for _, a := range args[3:] {
-		ae, err := verImpl.NewEventFromTrustedJSON(a, false)
+		ae, err := c07ParseTrusted(verImpl, a)
 		if err != nil {
 			return args, B("unparsed")
 		}
@@ -517,7 +517,7 @@ func c07Parses(ver string, evs ...[]byte) bool {
 		return false
 	}
 	for _, e := range evs {
-		if _, err := verImpl.NewEventFromTrustedJSON(e, false); err != nil {
+		if _, err := c07ParseTrusted(verImpl, e); err != nil {
 			return false
 		}
 	}
@@ -1535,13 +1535,13 @@ func c07AllowedPseudo(args [][]byte) ([][]byte, []byte) {
 		}
 		return spec.NewUserID(uid, true)
 	}
-	ev, err := verImpl.NewEventFromTrustedJSON(args[2], false)
+	ev, err := c07ParseTrusted(verImpl, args[2])
 	if err != nil {
 		return args, B("unparsed")
 	}
 	auths := []gm.PDU{}
 	for _, a := range args[3:] {
-		ae, err := verImpl.NewEventFromTrustedJSON(a, false)
+		ae, err := c07ParseTrusted(verImpl, a)
 		if err != nil {
 			return args, B("unparsed")
 		}
@@ -1717,3 +1717,17 @@ func init() {
 }
 
 var _ = strings.Repeat
+
+// c07ParseTrusted: the generators choose event IDs (the worlds refer to events by them, and in
+// room version 12 the room ID is the create event's ID). Since the repair of F65 an event of the
+// hash-derived ID format never takes its ID from the JSON, so the chosen ID is handed over the
+// way a server loading an event from its database does.
+func c07ParseTrusted(verImpl gm.IRoomVersion, js []byte) (gm.PDU, error) {
+	var hdr struct {
+		EventID string `json:"event_id"`
+	}
+	if verImpl.EventFormat() != gm.EventFormatV1 && json.Unmarshal(js, &hdr) == nil && hdr.EventID != "" {
+		return verImpl.NewEventFromTrustedJSONWithEventID(hdr.EventID, js, false)
+	}
+	return verImpl.NewEventFromTrustedJSON(js, false)
+}
